@@ -258,8 +258,9 @@ end
 
 /-! ### checkStructure -/
 
-theorem mem_keys_rel {α : Type} {R : NodeId → NodeId → Prop} (hb : BiU R) {a b : NodeId} (hr : R a b) :
-    ∀ {l₁ l₂ : List (NodeId × α)}, ListRel (EntRel R) l₁ l₂ → (a ∈ l₁.map (·.1) ↔ b ∈ l₂.map (·.1))
+theorem mem_keys_rel {α β : Type} {R : NodeId → NodeId → Prop} {Q : α → β → Prop} (hb : BiU R) {a b : NodeId}
+    (hr : R a b) : ∀ {l₁ : List (NodeId × α)} {l₂ : List (NodeId × β)},
+      ListRel (fun e₁ e₂ => R e₁.1 e₂.1 ∧ Q e₁.2 e₂.2) l₁ l₂ → (a ∈ l₁.map (·.1) ↔ b ∈ l₂.map (·.1))
   | _, _, .nil => by simp
   | _, _, .cons (a := e₁) (b := e₂) h1 h2 => by
     have ih := mem_keys_rel hb hr h2
@@ -285,11 +286,14 @@ variable {R : NodeId → NodeId → Prop} {env₁ env₂ : Env} (hE : EnvRel R e
 include hE
 
 /-- checkStructure on related worklists: the right run registers related schemas under the same paths, in the same
-    order (two fuels: the right run is only asked not to run out) -/
-theorem cs_rel : ∀ (f₁ f₂ : Nat) (w₁ w₂ : List (NodeId × String)) (acc₁ acc₂ res₁ : List (NodeId × Info)),
-    ListRel (EntRel R) w₁ w₂ → ListRel (EntRel R) acc₁ acc₂ →
+    order (two fuels: the right run is only asked not to run out).  `Q`: any relation on info records that holds
+    between two fresh records for the same path. -/
+theorem cs_rel {Q : Info → Info → Prop} (hQ : ∀ p, Q (RPerm.infoOf p) (RPerm.infoOf p)) :
+    ∀ (f₁ f₂ : Nat) (w₁ w₂ : List (NodeId × String)) (acc₁ acc₂ res₁ : List (NodeId × Info)),
+    ListRel (EntRel R) w₁ w₂ → ListRel (fun e₁ e₂ => R e₁.1 e₂.1 ∧ Q e₁.2 e₂.2) acc₁ acc₂ →
     checkStructure env₁.st f₁ w₁ acc₁ = .ok res₁ → checkStructure env₂.st f₂ w₂ acc₂ ≠ .fuel →
-    ∃ res₂, checkStructure env₂.st f₂ w₂ acc₂ = .ok res₂ ∧ ListRel (EntRel R) res₁ res₂ := by
+    ∃ res₂, checkStructure env₂.st f₂ w₂ acc₂ = .ok res₂ ∧
+      ListRel (fun e₁ e₂ => R e₁.1 e₂.1 ∧ Q e₁.2 e₂.2) res₁ res₂ := by
   intro f₁
   induction f₁ with
   | zero => intro f₂ w₁ w₂ acc₁ acc₂ res₁ _ _ h; rw [RPerm.cs_zero] at h; cases h
@@ -321,8 +325,9 @@ theorem cs_rel : ∀ (f₁ f₂ : Nat) (w₁ w₂ : List (NodeId × String)) (ac
           have hl₂ : lookupNat b acc₂ = none := (RPerm.lookupNat_eq_none_iff b acc₂).mpr hid₂
           have hwork : ListRel (EntRel R) (childEntries n₁ p ++ w₁') (childEntries n₂ p ++ w₂') :=
             listRel_append (hn.entries p) h2
-          have hacc' : ListRel (EntRel R) (acc₁ ++ [(a, RPerm.infoOf p)]) (acc₂ ++ [(b, RPerm.infoOf p)]) :=
-            listRel_append hacc (.cons ⟨hr, rfl⟩ .nil)
+          have hacc' : ListRel (fun e₁ e₂ => R e₁.1 e₂.1 ∧ Q e₁.2 e₂.2) (acc₁ ++ [(a, RPerm.infoOf p)])
+              (acc₂ ++ [(b, RPerm.infoOf p)]) :=
+            listRel_append hacc (.cons ⟨hr, hQ p⟩ .nil)
           have hstep : checkStructure env₂.st (f₂ + 1) ((b, p) :: w₂') acc₂ =
               checkStructure env₂.st f₂ (childEntries n₂ p ++ w₂') (acc₂ ++ [(b, RPerm.infoOf p)]) := by
             rw [RPerm.cs_cons, hn₂]
